@@ -60,7 +60,9 @@ ASSUMPTIONS = [
     "only the first reboot is judged (expire_secs is not re-armed by a reload)",
     "virtual horizon after the last operation: 60 s + 40 x min_wait_secs + 3 x injected delays (the writer's own waits are "
     "min_wait_secs, a 1 s poll and 0.2 s busy polls)",
-    "real mode: wall-clock watchdog (30 s) => the case is inconclusive, never a violation",
+    "real mode: wall-clock watchdog (30 s) => the case is inconclusive, never a violation; the interpreter's GIL switch "
+    "interval is varied (5 us .. 5 ms) as a scheduling knob; while the caller mutates a dict it handed over earlier, "
+    "intermediate snapshots on disk only have to be complete YAML documents (the statement is silent about them)",
 ]
 HORIZONS = {"virtual_settle_s": "60 + 40*min_wait + 3*sum(delays)", "real_watchdog_s": 30, "crash_child_timeout_s": 60}
 TIERS = {
@@ -68,11 +70,11 @@ TIERS = {
     "thorough": {"cases": 32000, "batch": 500, "case_timeout": 180, "batch_timeout": 3000},
 }
 MIN_EVALS = {
-    "quick": {"history": 2000, "shutdown_durability": 800, "write_failure": 150, "crash_atomicity": 60,
-              "error_atomicity": 100, "error_then_later_save": 100, "reboot_file": 40, "reboot_equal": 100,
-              "reboot_expiry": 20},
-    "thorough": {"history": 40000, "shutdown_durability": 16000, "write_failure": 3000, "crash_atomicity": 300,
-                 "error_atomicity": 500, "error_then_later_save": 500, "reboot_file": 800, "reboot_equal": 2000,
+    "quick": {"history": 4000, "shutdown_durability": 1000, "write_failure": 200, "crash_atomicity": 80,
+              "error_atomicity": 130, "error_then_later_save": 130, "reboot_file": 50, "reboot_equal": 150,
+              "reboot_expiry": 25},
+    "thorough": {"history": 80000, "shutdown_durability": 20000, "write_failure": 4000, "crash_atomicity": 600,
+                 "error_atomicity": 1000, "error_then_later_save": 1000, "reboot_file": 800, "reboot_equal": 2400,
                  "reboot_expiry": 400},
 }
 SHRINK_KEYS = ["delays", "ops"]
@@ -82,6 +84,32 @@ _LAYOUT = {"quick": {"crash": 3, "real": 3, "reboot": 8}, "thorough": {"crash": 
 
 CRASH_SHAPES = ["tiny", "unicode", "nested", "multiline", "two_buffers", "many_buffers"]
 CRASH_FAULTS = ["kill", "ENOSPC", "EIO"]
+
+
+def extra_coverage(recs):
+    """Evidence for the fault-enumeration level: how many crash / error points were hit, and whether every
+    enumeration of this run was complete (each syscall of the save hit exactly once, re-validated from the log)."""
+    tot = {"kill_points": 0, "error_points": 0, "enumerations": 0, "complete_enumerations": 0, "misaligned": 0,
+           "child_timeouts": 0, "child_runs": 0}
+    combos = {}
+    for r in recs:
+        o = r.get("obs") or {}
+        if not o.get("crash_cases"):
+            continue
+        tot["enumerations"] += 1
+        tot["complete_enumerations"] += int(o.get("enumerations_complete", 0))
+        tot["kill_points"] += int(o.get("crash_points_enumerated", 0))
+        tot["error_points"] += int(o.get("error_points_enumerated", 0))
+        tot["misaligned"] += int(o.get("misaligned_injections", 0))
+        tot["child_timeouts"] += int(o.get("child_timeouts", 0))
+        tot["child_runs"] += int(o.get("child_runs", 0))
+        key = "|".join(str(r.get("shape", "")).split("|")[1:3])
+        combos[key] = combos.get(key, 0) + 1
+    tot["exhaustive"] = tot["enumerations"] > 0 and tot["enumerations"] == tot["complete_enumerations"]
+    tot["scope"] = ("every syscall touching the temp file or the target during ONE save, per (payload shape, fault kind); "
+                    "process-kill / errno model")
+    tot["shape_fault_combinations"] = combos
+    return {"crash_points_enumerated": tot}
 
 
 # =============================================================================================
@@ -141,8 +169,8 @@ def _gen_sched(rng):
         ops.append({"t": round(ts, 6), "op": "stop", "first": rng.random() < 0.5})
     delays = []
     for _ in range(rng.choice([0, 0, 1, 2, 3, 5])):
-        delays.append([rng.randrange(n), rng.randrange(0, 10), rng.randrange(1, 3000 if deep and rng.random() < 0.7 else 45),
-                       rng.choice([0.0, 0.001, 0.05, 0.3, 1.5])])
+        delays.append([rng.randrange(n), rng.randrange(0, 10), rng.randrange(1, 3000 if deep and rng.random() < 0.5 else (
+            150 if deep else 45)), rng.choice([0.0, 0.001, 0.05, 0.3, 1.5])])
     return {"mode": "sched", "n": n, "mw": mw, "deep": deep, "ops": ops, "delays": delays,
             "tie": rng.randrange(1 << 30), "initial": rng.random() < 0.3}
 
@@ -322,7 +350,11 @@ def _run_sched(case):
         for h in eng.hist:
             clauses["history"] += h.evals
             obs["scheduling_point_observations"] += h.observations
-            viol.extend(h.violations)
+            for hv in h.violations:
+                if eng.max_inflight >= 2 and any(not f[3] for f in eng.failures):
+                    hv = {"clause": "history", "sig": "C15:is_busy_race_concurrent_dumps",
+                          "detail": dict(hv["detail"], observed=hv["sig"], max_concurrent_saves=eng.max_inflight)}
+                viol.append(hv)
         obs["handoffs"] = eng.sched.handoffs
         obs["delays_hit"] = eng.sched.delays_hit
         obs["failed_writes"] = len(eng.failures)
@@ -484,7 +516,13 @@ def _run_crash(case):
             raise RuntimeError("baseline child run failed rc=%r window_ok=%r stderr=%s" % (rc, ok, se))
         base_final = which(tgt)
         base_v2 = which(os.path.join(base, "snap", "after_v2.yaml"))
-        if base_v2[0] != 2 or base_final[0] != 3:
+        if base_final[0] == 3 and base_v2[0] != 2:
+            # the snapshot is a hard link to the inode that was the target after the v2 save; it no longer holds
+            # v2, so the v3 save rewrote that inode IN PLACE instead of replacing the directory entry
+            clauses["crash_atomicity"] += 1
+            viol.append({"clause": "crash_atomicity", "sig": "C15:target_modified_in_place",
+                         "detail": {"hardlinked_snapshot_after_v2_now_holds": base_v2, "final": base_final}})
+        elif base_v2[0] != 2 or base_final[0] != 3:
             # no fault was injected: the plain sequence save v1, v2, v3, shutdown did not end as saved
             clauses["error_then_later_save"] += 1
             viol.append({"clause": "error_then_later_save", "sig": "C15:baseline_child_not_as_saved",
@@ -666,12 +704,15 @@ def _run_reboot(case):
                     val = V.build(_no_sets(o.get("value")))
                     md = model.setdefault(name, {"value": None, "persist": False, "expire_secs": None, "expiry": None,
                                                  "judged": False})
-                    if case.get("config_vars") and name in _CFG_VARS and name not in model:
-                        pass
                     prev = mvars.get_machine_var(name)
                     mvars.set_machine_var(name, copy.deepcopy(val))
                     obs["mv_sets"] += 1
                     changed = not V.loose_equal(prev, val)
+                    if isinstance(prev, (int, float)) and isinstance(val, (int, float)):
+                        try:        # "change" of a number is documented as the amount of the change
+                            changed = bool(val - prev)
+                        except (OverflowError, TypeError):
+                            pass
                     md["value"] = val
                     if md["expire_secs"]:
                         md["expiry"] = now_ts() + md["expire_secs"]
@@ -728,6 +769,9 @@ def _run_reboot(case):
         # ------------------------------------------------------------------ boot 2 after the downtime
         ct1 = load_times[0]
         offset[0] = (end_ts - ct1) + float(case.get("downtime", 0.0))
+        # MpfTestCase switches a load cache on (YamlInterface.cache = True, production default is False):
+        # a reboot must read the file, not the cache
+        yi_mod.YamlInterface.file_cache.pop(path, None)
         vm2 = VMachine(config=cfg)
         obs["boots"] += 1
         survivors, third = {}, False
@@ -779,6 +823,7 @@ def _run_reboot(case):
             while not sched.all_done() and sched.now < t_end:
                 sched.advance(0.5)
             offset[0] += 10.0
+            yi_mod.YamlInterface.file_cache.pop(path, None)
             vm3 = VMachine(config=cfg)
             obs["boots"] += 1
             try:
@@ -802,6 +847,7 @@ def _run_reboot(case):
         mv_mod.MachineVariables.load_machine_vars = orig["load"]
         sched.teardown()
         fresh_process_state(fm_mod, yi_mod)
+        yi_mod.YamlInterface.file_cache.pop(path, None)
         shutil.rmtree(root, ignore_errors=True)
     return {"violations": _uniq(viol), "clauses": clauses, "obs": obs,
             "shape": "M|%s|down=%s|cfg=%d" % (shape_ops, _bucket(float(case.get("downtime", 0)) / 100.0),
@@ -982,6 +1028,9 @@ def _run_real_inproc(case):
                     # (plus monotony when the version key made it into the snapshot).
                     sig = None
                 if sig:
+                    if st["max"] >= 2:      # two saves were inside FileManager.save at once: name the mechanism
+                        detail, sig = dict(detail, observed=sig, max_concurrent_saves=st["max"],
+                                           failed_writes=st["fail"][:3]), "C15:is_busy_race_concurrent_dumps"
                     viol.append({"clause": "history", "sig": sig, "detail": dict(detail, manager=i, mode="real")})
                     continue
                 if v is not None:
